@@ -1113,7 +1113,9 @@ class NodeBase(ABC):
 
         pointer = self
         while True:
-            next_node = pointer.first_child
+            # nodes that the default filters hide can have descendants that pass them
+            with altered_default_filters():
+                next_node = pointer.first_child
             if next_node is None:
                 next_node = pointer._fetch_following_sibling()
 
